@@ -496,11 +496,17 @@ impl FixtureDatabase {
         let mut available_fixtures = Vec::new();
         let mut seen_names = HashSet::new();
 
-        // Priority 1: Fixtures in the same file
+        // Priority 1: Fixtures in the same file. When the file defines a name more than once the
+        // last definition is the one in effect (the same choice go-to-definition makes).
         for entry in self.definitions.iter() {
             let fixture_name = entry.key();
-            for def in entry.value().iter() {
-                if def.file_path == file_path && !seen_names.contains(fixture_name.as_str()) {
+            if let Some(def) = entry
+                .value()
+                .iter()
+                .filter(|def| def.file_path == file_path)
+                .max_by_key(|def| def.line)
+            {
+                if !seen_names.contains(fixture_name.as_str()) {
                     available_fixtures.push(def.clone());
                     seen_names.insert(fixture_name.clone());
                 }
